@@ -21,7 +21,7 @@ int main(){
     if(op=="new"){
       p.reset(new IPhreeqc());
       p->SetOutputFileOn(false); p->SetErrorFileOn(false); p->SetLogFileOn(false); p->SetSelectedOutputFileOn(false);
-      p->SetDumpFileOn(false); p->SetDumpStringOn(true); p->SetErrorStringOn(true); p->SetErrorOn(false);
+      p->SetDumpFileOn(false); p->SetDumpStringOn(true); p->SetErrorStringOn(true); p->SetErrorOn(true);
       int e = p->LoadDatabase(hx::unhex(w[1]).c_str());
       std::cout<<"N "<<e<<"\n";
     } else if(op=="run" && p){
